@@ -167,8 +167,11 @@ def r2(ctx, F, rule, sfx):
 
 
 def r3(ctx, F, rule, sfx):
-    c03.decision_check(ctx, F, rule, sfx, 'direct')
+    res = c03.decision_check(ctx, F, rule, sfx, 'direct')
     c03.decision_check(ctx, F, rule, sfx, 'sym')
+    if res is not None:
+        # every face the rule decides to create is stored: no value-dependent filtering after the decision
+        c03.stored_in_plane_order(ctx, rule, sfx, res[0], 'direct')
     # towards an unselected neighbour the face is always created by the selected side
     s = faces.site(F, 'direct')
     T, reach = faces.reached_table(s, s.creations)
